@@ -463,6 +463,183 @@ static void do_signseq(char *sa, char *sb, const buf_t *ca, const buf_t *cb) {
 	free(keep);
 }
 
+/* ------------------------------------------------------------------ wave 5: re-encoding with the low-level writers, PEM, data / keyAgreementInfo content
+ * cmsrt <kind> <contenthex>: parse a message made by the high-level interface with the *_from_der reader, write the fields back with the
+ * matching *_to_der writer, compare with the original bytes */
+static void do_cmsrt(const char *kind, const buf_t *content) {
+	int s12[] = { 1, 2 }, r23[] = { 2, 3 }; blob_t m = { NULL, 0 }; int t; const uint8_t *d, *cp; size_t dl, cl; uint8_t *out, *p; size_t ol = 0;
+	if (!strcmp(kind, "pem")) {
+		FILE *fp = tmpfile(); uint8_t *back; size_t bl = 0; int r1, r2;
+		m = make_signed(s12, 2, OID_cms_data, content); if (!m.p || !fp) { printf("ERR produce"); return; }
+		back = malloc(m.n + 16); r1 = cms_to_pem(m.p, m.n, fp); rewind(fp); r2 = cms_from_pem(back, &bl, m.n + 16, fp); fclose(fp);
+		printf("to_pem=%d from_pem=%d same=%d", r1, r2, bl == m.n && !memcmp(back, m.p, bl)); free(back); msg_free(m.p); return; }
+	if (!strcmp(kind, "setdata")) {
+		size_t len = 0; uint8_t *c; const uint8_t *o; size_t olen; int r;
+		if (cms_set_data(NULL, &len, content->p, content->n) != 1) { printf("ERR size"); return; }
+		c = malloc(len ? len : 1); ol = 0; r = cms_set_data(c, &ol, content->p, content->n); cp = c; cl = ol;
+		/* the size query of cms_set_data over-reports by the second OCTET STRING header (noted, not judged): written <= reported is required */
+		if (r != 1 || ol > len || cms_content_info_from_der(&t, &d, &dl, &cp, &cl) != 1 || cl || t != OID_cms_data) { printf("ERR"); free(c); return; }
+		if (asn1_octet_string_from_der(&o, &olen, &d, &dl) != 1 || dl) { printf("ERR inner"); free(c); return; }
+		printf("same=%d", olen == content->n && (olen == 0 || !memcmp(o, content->p, olen))); free(c); return; }
+	if (!strcmp(kind, "kai")) {
+		size_t len = 0; uint8_t c[2048]; int v; SM2_KEY pk; const uint8_t *uc, *uid; size_t ucl, uidl;
+		if (cms_set_key_agreement_info(c, &len, &keys[2], certs[2], certlens[2], content->p, content->n) != 1) { printf("ERR build"); return; }
+		cp = c; cl = len;
+		if (cms_content_info_from_der(&t, &d, &dl, &cp, &cl) != 1 || cl || t != OID_cms_key_agreement_info) { printf("ERR outer"); return; }
+		if (cms_key_agreement_info_from_der(&v, &pk, &uc, &ucl, &uid, &uidl, &d, &dl) != 1 || dl) { printf("ERR inner"); return; }
+		printf("version=%d key=%d cert=%d id=%d", v, sm2_public_key_equ(&pk, &keys[2]) == 1, ucl == certlens[2] && !memcmp(uc, certs[2], ucl), uidl == content->n && (uidl == 0 || !memcmp(uid, content->p, uidl))); return; }
+	if (!strcmp(kind, "addrcpt")) {     /* the list builder: two recipients appended, each opens its own entry, a full list is refused and left alone */
+		uint8_t ris[1024], key[64]; size_t rl = 0, kl, one, before; int k, opens = 1, full; const uint8_t *is, *sn; size_t il, sl;
+		for (k = 2; k <= 3; k++) { if (x509_cert_get_issuer_and_serial_number(certs[k], certlens[k], &is, &il, &sn, &sl) != 1
+			|| cms_recipient_infos_add_recipient_info(ris, &rl, sizeof ris, &keys[k], is, il, sn, sl, SYMKEY, 16) != 1) { printf("ERR add"); return; } if (k == 2) one = rl; }
+		cp = ris; cl = rl;
+		for (k = 2; k <= 3; k++) { x509_cert_get_issuer_and_serial_number(certs[k], certlens[k], &is, &il, &sn, &sl); kl = 0;
+			if (cms_recipient_info_decrypt_from_der(&keys[k], is, il, sn, sl, key, &kl, sizeof key, &cp, &cl) != 1 || kl != 16 || memcmp(key, SYMKEY, 16)) opens = 0; }
+		before = rl; full = cms_recipient_infos_add_recipient_info(ris, &rl, before + one / 2, &keys[2], is, il, sn, sl, SYMKEY, 16);
+		printf("added=2 each-opens=%d left=%zu full-refused=%d", opens, cl, full != 1 && rl == before); return; }
+	if (!strcmp(kind, "signed")) m = make_signed(s12, 2, OID_cms_data, content);
+	else if (!strcmp(kind, "env")) m = make_env(r23, 2, OID_cms_data, content);
+	else if (!strcmp(kind, "enc")) m = make_enc(OID_cms_data, content);
+	else if (!strcmp(kind, "signenv")) m = make_signenv(s12, 2, r23, 2, OID_cms_data, content, 1);
+	if (!m.p) { printf("ERR produce"); return; }
+	cp = m.p; cl = m.n;
+	if (cms_content_info_from_der(&t, &d, &dl, &cp, &cl) != 1 || cl) { printf("ERR outer"); msg_free(m.p); return; }
+	out = malloc(dl + 64); p = out;
+	{	const uint8_t *orig = d; size_t origlen = dl; int ok = 0;
+		if (!strcmp(kind, "signed")) {
+			int v, da[4], ct; size_t dac; const uint8_t *c, *cs, *crls, *si; size_t cl2, csl, crll, sil;
+			if (cms_signed_data_from_der(&v, da, &dac, 4, &ct, &c, &cl2, &cs, &csl, &crls, &crll, &si, &sil, &d, &dl) == 1 && dl == 0) {
+				if (ct == OID_cms_data) { const uint8_t *o; size_t olen; if (asn1_octet_string_from_der(&o, &olen, &c, &cl2) == 1) { c = o; cl2 = olen; } }
+				ok = cms_signed_data_to_der(v, da, dac, ct, c, cl2, cs, csl, crls, crll, si, sil, &p, &ol) == 1; }
+		} else if (!strcmp(kind, "env") || !strcmp(kind, "signenv")) {
+			int v, ct, ea, da[4]; size_t dac = 0; const uint8_t *ri, *eci, *iv, *ec, *a1, *a2, *cs = NULL, *crls = NULL, *si = NULL; size_t ril, ecil, ivl, ecl, l1, l2, csl = 0, crll = 0, sil = 0; int r;
+			if (!strcmp(kind, "env")) r = cms_enveloped_data_from_der(&v, &ri, &ril, &eci, &ecil, &d, &dl);
+			else r = cms_signed_and_enveloped_data_from_der(&v, &ri, &ril, da, &dac, 4, &eci, &ecil, &cs, &csl, &crls, &crll, &si, &sil, &d, &dl);
+			if (r == 1 && dl == 0 && cms_enced_content_info_from_der(&ct, &ea, &iv, &ivl, &ec, &ecl, &a1, &l1, &a2, &l2, &eci, &ecil) == 1 && ecil == 0) {
+				if (!strcmp(kind, "env")) ok = cms_enveloped_data_to_der(v, ri, ril, ct, ea, iv, ivl, ec, ecl, a1, l1, a2, l2, &p, &ol) == 1;
+				else ok = cms_signed_and_enveloped_data_to_der(v, ri, ril, da, dac, ct, ea, iv, ivl, ec, ecl, a1, l1, a2, l2, cs, csl, crls, crll, si, sil, &p, &ol) == 1; }
+		} else {
+			int v, ct, ea; const uint8_t *iv, *ec, *a1, *a2; size_t ivl, ecl, l1, l2;
+			if (cms_encrypted_data_from_der(&v, &ct, &ea, &iv, &ivl, &ec, &ecl, &a1, &l1, &a2, &l2, &d, &dl) == 1 && dl == 0)
+				ok = cms_encrypted_data_to_der(v, ct, ea, iv, ivl, ec, ecl, a1, l1, a2, l2, &p, &ol) == 1;
+		}
+		printf("parsed-and-rewritten=%d same=%d", ok, ok && ol == origlen && !memcmp(out, orig, ol));
+	}
+	free(out); msg_free(m.p);
+}
+
+
+/* ---- cmsenc: the low-level *_to_der writers on given (pointer, length) arguments; "-" NULL, "e" non-NULL and empty, else hex.
+   Output: ERR, or the bytes and whether the matching *_from_der hands the same fields back. */
+typedef struct { const uint8_t *p; size_t n; uint8_t *own; } fld_t;
+static fld_t fld(const char *s) {
+	static const uint8_t nothing[1] = { 0 }; fld_t f = { NULL, 0, NULL };
+	if (!strcmp(s, "-")) return f;
+	if (!strcmp(s, "e")) { f.p = nothing; return f; }
+	{ buf_t b = hex2buf(s); f.p = b.p; f.n = b.n; f.own = b.p; } return f;
+}
+static int alg_of(const char *s) {
+	return !strcmp(s, "sm3") ? OID_sm3 : !strcmp(s, "sm2sm3") ? OID_sm2sign_with_sm3 : !strcmp(s, "sm2enc") ? OID_sm2encrypt
+		: !strcmp(s, "sm4cbc") ? OID_sm4_cbc : !strcmp(s, "undef") ? OID_undef : 9999;
+}
+static int ctype_num(const char *s) { int k = atoi(s); return k >= 1 && k <= 6 ? OID_cms_data + (k - 1) : 9999; }
+static size_t algs_of(const char *s, int *out, size_t max) {
+	size_t k = 0; char tmp[128], *save = NULL, *t; if (!strcmp(s, "-")) return 0;
+	snprintf(tmp, sizeof tmp, "%s", s);
+	for (t = strtok_r(tmp, ".", &save); t && k < max; t = strtok_r(NULL, ".", &save)) out[k++] = alg_of(t);
+	return k;
+}
+static int same(const uint8_t *a, size_t al, const fld_t *f) { return al == f->n && (al == 0 || !memcmp(a, f->p, al)); }
+static int same_int(const uint8_t *a, size_t al, const fld_t *f) {      /* the value comes back without leading zero octets */
+	const uint8_t *q = f->p; size_t n = f->n; while (n > 1 && *q == 0) { q++; n--; } return al == n && (n == 0 || !memcmp(a, q, n)); }
+static void do_cmsenc(size_t nw, char **w) {
+	fld_t f[12]; size_t nf = 0, i; uint8_t *out = malloc(70000), *p = out; size_t ol = 0; int r = -1, back = 0; const uint8_t *cp; size_t cl;
+	const char *k = w[1];
+	memset(f, 0, sizeof f);
+#define F(i_, s_) (f[i_] = fld(s_), nf = nf > (size_t)(i_) + 1 ? nf : (size_t)(i_) + 1)
+	if (!strcmp(k, "ias") && nw == 4) {
+		const uint8_t *is, *sn; size_t isl, snl; F(0, w[2]); F(1, w[3]);
+		r = cms_issuer_and_serial_number_to_der(f[0].p, f[0].n, f[1].p, f[1].n, &p, &ol); cp = out; cl = ol;
+		if (r == 1) back = cms_issuer_and_serial_number_from_der(&is, &isl, &sn, &snl, &cp, &cl) == 1 && cl == 0 && same(is, isl, &f[0]) && same_int(sn, snl, &f[1]);
+	} else if (!strcmp(k, "si") && nw == 10) {
+		int v, da, sa; const uint8_t *is, *sn, *au, *sg, *un; size_t isl, snl, aul, sgl, unl;
+		F(0, w[3]); F(1, w[4]); F(2, w[6]); F(3, w[8]); F(4, w[9]);
+		r = cms_signer_info_to_der(atoi(w[2]), f[0].p, f[0].n, f[1].p, f[1].n, alg_of(w[5]), f[2].p, f[2].n, alg_of(w[7]), f[3].p, f[3].n, f[4].p, f[4].n, &p, &ol); cp = out; cl = ol;
+		if (r == 1) back = cms_signer_info_from_der(&v, &is, &isl, &sn, &snl, &da, &au, &aul, &sa, &sg, &sgl, &un, &unl, &cp, &cl) == 1 && cl == 0
+			&& v == atoi(w[2]) && da == alg_of(w[5]) && sa == alg_of(w[7]) && same(is, isl, &f[0]) && same_int(sn, snl, &f[1]) && same(au, aul, &f[2]) && same(sg, sgl, &f[3]) && same(un, unl, &f[4])
+			&& (au == NULL) == (f[2].p == NULL) && (un == NULL) == (f[4].p == NULL);
+	} else if (!strcmp(k, "ri") && nw == 7) {
+		int v, pa; const uint8_t *is, *sn, *pp, *ek; size_t isl, snl, ppl, ekl;
+		F(0, w[3]); F(1, w[4]); F(2, w[6]);
+		r = cms_recipient_info_to_der(atoi(w[2]), f[0].p, f[0].n, f[1].p, f[1].n, alg_of(w[5]), f[2].p, f[2].n, &p, &ol); cp = out; cl = ol;
+		if (r == 1) back = cms_recipient_info_from_der(&v, &is, &isl, &sn, &snl, &pa, &pp, &ppl, &ek, &ekl, &cp, &cl) == 1 && cl == 0
+			&& v == atoi(w[2]) && pa == alg_of(w[5]) && ppl == 0 && same(is, isl, &f[0]) && same_int(sn, snl, &f[1]) && same(ek, ekl, &f[2]);
+	} else if (!strcmp(k, "da") && nw == 3) {
+		int a[8], b[8]; size_t n = algs_of(w[2], a, 8), bn = 0;
+		r = cms_digest_algors_to_der(a, n, &p, &ol); cp = out; cl = ol;
+		if (r == 1) back = cms_digest_algors_from_der(b, &bn, 8, &cp, &cl) == 1 && cl == 0 && bn == n && !memcmp(a, b, n * sizeof(int));
+	} else if (!strcmp(k, "ci") && nw == 4) {
+		int t; const uint8_t *c; size_t cl2; F(0, w[3]);
+		r = cms_content_info_to_der(ctype_num(w[2]), f[0].p, f[0].n, &p, &ol); cp = out; cl = ol;
+		if (r == 1 && cms_content_info_from_der(&t, &c, &cl2, &cp, &cl) == 1 && cl == 0 && t == ctype_num(w[2])) {
+			if (t == OID_cms_data) { const uint8_t *o; size_t olen; back = asn1_octet_string_from_der(&o, &olen, &c, &cl2) == 1 && cl2 == 0 && same(o, olen, &f[0]); }
+			else back = same(c, cl2, &f[0]) && (c == NULL) == (f[0].p == NULL); }
+	} else if (!strcmp(k, "sd") && nw == 9) {
+		int a[8], b[8], v, t; size_t n = algs_of(w[3], a, 8), bn = 0; const uint8_t *c, *cs, *cr, *si; size_t cl2, csl, crl, sil;
+		F(0, w[5]); F(1, w[6]); F(2, w[7]); F(3, w[8]);
+		r = cms_signed_data_to_der(atoi(w[2]), a, n, ctype_num(w[4]), f[0].p, f[0].n, f[1].p, f[1].n, f[2].p, f[2].n, f[3].p, f[3].n, &p, &ol); cp = out; cl = ol;
+		if (r == 1 && cms_signed_data_from_der(&v, b, &bn, 8, &t, &c, &cl2, &cs, &csl, &cr, &crl, &si, &sil, &cp, &cl) == 1 && cl == 0) {
+			if (t == OID_cms_data) { const uint8_t *o; size_t olen; if (asn1_octet_string_from_der(&o, &olen, &c, &cl2) == 1 && cl2 == 0) { c = o; cl2 = olen; } else cl2 = (size_t)-1; }
+			back = v == atoi(w[2]) && bn == n && !memcmp(a, b, n * sizeof(int)) && t == ctype_num(w[4]) && same(c, cl2, &f[0]) && same(cs, csl, &f[1]) && same(cr, crl, &f[2]) && same(si, sil, &f[3])
+				&& (cs == NULL) == (f[1].p == NULL) && (cr == NULL) == (f[2].p == NULL); }
+	} else if ((!strcmp(k, "ed") && nw == 10) || (!strcmp(k, "sed") && nw == 14)) {
+		int sed = !strcmp(k, "sed"), a[8], b[8], v, ct, ea; size_t n = 0, bn = 0, o = sed ? 1 : 0;
+		const uint8_t *ri, *eci, *iv, *ec, *a1, *a2, *cs = NULL, *cr = NULL, *si = NULL; size_t ril, ecil, ivl, ecl, l1, l2, csl = 0, crl = 0, sil = 0; int rr;
+		F(0, w[3]); if (sed) n = algs_of(w[4], a, 8);
+		F(1, w[6 + o]); F(2, w[7 + o]); F(3, w[8 + o]); F(4, w[9 + o]);
+		if (sed) { F(5, w[11]); F(6, w[12]); F(7, w[13]); }
+		if (!sed) r = cms_enveloped_data_to_der(atoi(w[2]), f[0].p, f[0].n, ctype_num(w[4]), alg_of(w[5]), f[1].p, f[1].n, f[2].p, f[2].n, f[3].p, f[3].n, f[4].p, f[4].n, &p, &ol);
+		else r = cms_signed_and_enveloped_data_to_der(atoi(w[2]), f[0].p, f[0].n, a, n, ctype_num(w[5]), alg_of(w[6]), f[1].p, f[1].n, f[2].p, f[2].n, f[3].p, f[3].n, f[4].p, f[4].n,
+			f[5].p, f[5].n, f[6].p, f[6].n, f[7].p, f[7].n, &p, &ol);
+		cp = out; cl = ol;
+		if (r == 1) {
+			if (!sed) rr = cms_enveloped_data_from_der(&v, &ri, &ril, &eci, &ecil, &cp, &cl);
+			else rr = cms_signed_and_enveloped_data_from_der(&v, &ri, &ril, b, &bn, 8, &eci, &ecil, &cs, &csl, &cr, &crl, &si, &sil, &cp, &cl);
+			back = rr == 1 && cl == 0 && v == atoi(w[2]) && same(ri, ril, &f[0])
+				&& cms_enced_content_info_from_der(&ct, &ea, &iv, &ivl, &ec, &ecl, &a1, &l1, &a2, &l2, &eci, &ecil) == 1 && ecil == 0
+				&& ct == ctype_num(w[4 + o]) && ea == alg_of(w[5 + o]) && same(iv, ivl, &f[1]) && same(ec, ecl, &f[2]) && same(a1, l1, &f[3]) && same(a2, l2, &f[4])
+				&& (ec == NULL) == (f[2].p == NULL) && (a1 == NULL) == (f[3].p == NULL) && (a2 == NULL) == (f[4].p == NULL);
+			if (sed) back = back && bn == n && !memcmp(a, b, n * sizeof(int)) && same(cs, csl, &f[5]) && same(cr, crl, &f[6]) && same(si, sil, &f[7])
+				&& (cs == NULL) == (f[5].p == NULL) && (cr == NULL) == (f[6].p == NULL);
+		}
+	} else { printf("ERR bad-op"); free(out); return; }
+#undef F
+	if (r != 1) printf("ERR"); else { puthex(out, ol); printf(" back=%d", back); }
+	for (i = 0; i < nf; i++) free(f[i].own);
+	free(out);
+}
+
+
+/* ---- cmsprint <kind>: the text renderer on a message of each kind; names: content-type table both ways */
+static void do_cmsprint(const char *kind) {
+	int s12[] = { 1, 2 }, r23[] = { 2, 3 }; blob_t m = { NULL, 0 }; buf_t c; FILE *fp = tmpfile(); int r; long size; uint8_t kai[2048]; size_t kl = 0;
+	static uint8_t body[40] = { 1, 2, 3 }; c.p = body; c.n = sizeof body;
+	if (!fp) { printf("ERR tmpfile"); return; }
+	if (!strcmp(kind, "names")) { int id, n = 0, bad = 0; const char *nm;
+		for (id = OID_cms_data; id <= OID_cms_key_agreement_info; id++) { nm = cms_content_type_name(id); if (nm) { n++; if (cms_content_type_from_name(nm) != id) bad++; } }
+		printf("named=%d wrong-way-back=%d unknown-refused=%d", n, bad, cms_content_type_from_name("no-such") <= 0 && cms_content_type_name(0) == NULL); fclose(fp); return; }
+	if (!strcmp(kind, "signed")) m = make_signed(s12, 2, OID_cms_data, &c);
+	else if (!strcmp(kind, "env")) m = make_env(r23, 2, OID_cms_data, &c);
+	else if (!strcmp(kind, "enc")) m = make_enc(OID_cms_data, &c);
+	else if (!strcmp(kind, "signenv")) m = make_signenv(s12, 2, r23, 2, OID_cms_data, &c, 1);
+	else if (!strcmp(kind, "data")) { size_t len = 0; if (cms_set_data(NULL, &len, c.p, c.n) == 1) { m.p = malloc(len + 1); m.n = 0; if (cms_set_data(m.p, &m.n, c.p, c.n) != 1) { free(m.p); m.p = NULL; } } }
+	else if (!strcmp(kind, "kai")) { if (cms_set_key_agreement_info(kai, &kl, &keys[2], certs[2], certlens[2], c.p, c.n) == 1) { m.p = kai; m.n = kl; } }
+	if (!m.p) { printf("ERR produce"); fclose(fp); return; }
+	r = cms_print(fp, 0, 0, "CMS", m.p, m.n); fflush(fp); size = ftell(fp); fclose(fp);
+	printf("print=%d text=%d", r, size > 40);
+	if (!strcmp(kind, "data")) free(m.p); else if (strcmp(kind, "kai")) msg_free(m.p);
+}
+
 static void handle(size_t nw, char **w) {
 	ent_seed(0xC16 + nw, -1);
 	ent_clock(1700000000);
@@ -513,6 +690,9 @@ static void handle(size_t nw, char **w) {
 	}
 	else if (!strcmp(w[0], "openseq") && nw == 5) { buf_t c = hex2buf(w[4]); do_openseq(w[1], w[2], w[3], &c); free(c.p); }
 	else if (!strcmp(w[0], "signseq") && nw == 5) { buf_t a = hex2buf(w[3]), b = hex2buf(w[4]); do_signseq(w[1], w[2], &a, &b); free(a.p); free(b.p); }
+	else if (!strcmp(w[0], "cmsenc") && nw >= 3) do_cmsenc(nw, w);
+	else if (!strcmp(w[0], "cmsprint") && nw == 2) do_cmsprint(w[1]);
+	else if (!strcmp(w[0], "cmsrt") && nw == 3) { buf_t c = hex2buf(w[2]); do_cmsrt(w[1], &c); free(c.p); }
 	else if (!strcmp(w[0], "lowseq") && nw == 6) { buf_t c = hex2buf(w[5]); do_lowseq(w[1], w[2], atoi(w[3]), atoi(w[4]), &c); free(c.p); }
 	else if (!strcmp(w[0], "enc") && nw == 3) {
 		buf_t c = hex2buf(w[2]); blob_t m = make_enc(OID_cms_data, &c); uint8_t k2[16]; memcpy(k2, SYMKEY, 16); if (atoi(w[1])) k2[5] ^= 1;
